@@ -15,13 +15,13 @@
     values of its arguments -- i.e. env is "a state and parameter setting" with all components
     resolved (what property C01 proves the numeric model computes).  All theorems quantify over
     ALL models, environments and states; numbers are exact rationals. *)
-From Coq Require Import QArith Qabs.
+From Coq Require Import QArith Qabs Permutation.
 From MxlBase Require Import ListX.
-From Symbolic Require Import Expr ExprProofs SymModel FnTab GenSymFacts SymProofs ClosureProofs Witness SurrProofs.
+From Symbolic Require Import Expr ExprProofs SymModel FnTab GenSymFacts SymProofs ClosureProofs Witness SurrProofs SignFold SignFoldProofs.
 Open Scope Q_scope.
 
 Theorem C12_facts_pinned :
-  gen_sym_facts = mkSymFacts OrdDependency SymVarsParsData StatFloatTimesRate DynCoefTimesRate EqsByVarNames JacEqsByVars LamTimeVarsPars ThirdNumericByName FallbackWarnAnyException TimeShifted.
+  gen_sym_facts = mkSymFacts OrdDependency SymVarsParsData StatFloatTimesRate DynCoefTimesRate EqsByVarNames JacEqsByVars LamTimeVarsPars ThirdNumericByName FallbackWarnAnyException TimeShifted VarSymPlain.
 Proof. vm_compute. reflexivity. Qed.
 Print Assumptions C12_facts_pinned.
 
@@ -172,6 +172,90 @@ Theorem C12_closure_absolute_time :
     forall s, call_closure_at gen_sym_facts m js (Some s) t x = call_closure gen_sym_facts m js (t + s) x.
 Proof. exact (fun m js t x => conj eq_refl (fun s => eq_refl)). Qed.
 Print Assumptions C12_closure_absolute_time.
+
+(** (3-y0) The initial state may be handed to the simulator as a mapping y0 whose keys come in ANY order: the
+    state vector the integrator works on is tuple(y0[k] for k in model.get_variable_names()), and the Jacobian
+    function is lambdified over model.get_variable_names() -- it is the one of the simulator constructed
+    without y0, whatever the key order (so (3), (3') and (3'') hold for it).  Current fact LamTimeVarsPars. *)
+Theorem C12_closure_ignores_y0_key_order :
+  forall (fsym : fnid -> list expr -> option expr) (sdiff : name -> expr -> expr) (m : smodel) (y0keys : list name),
+    init_jac_y0 fsym sdiff gen_sym_facts m y0keys = Some (init_jac fsym sdiff gen_sym_facts m).
+Proof. exact (fun fsym sdiff m y0keys => init_jac_y0_shipped fsym sdiff gen_sym_facts m y0keys eq_refl). Qed.
+Print Assumptions C12_closure_ignores_y0_key_order.
+
+(** regression theorem for the seeded change C12-5 (fact LamTimeY0KeysPars: lambdify(("time", list(y0), ...))):
+    the state vector -- still in variable order -- is unpacked into the KEYS of y0.  On w5 (dx1/dt = -k*x1*x1,
+    dx2/dt = k*x1*x1) at the state [1; 2] the Jacobian is [[-2; 0]; [2; 0]]; that is what the current closure
+    returns for the key order [2; 1] and what the seeded shape returns for the declaration order, but for
+    the key order [2; 1] the seeded shape returns [[-4; 0]; [4; 0]]: the Jacobian at the PERMUTED state. *)
+Theorem C12_y0_key_order_refuted :
+  sf_lam facts_y0_keys = LamTimeY0KeysPars /\
+  (forall (fsym : fnid -> list expr -> option expr) (sdiff : name -> expr -> expr) (m : smodel) (y0keys : list name) (eqs : list expr),
+     to_symbolic fsym facts_y0_keys m = SymOk eqs ->
+     init_jac_y0 fsym sdiff facts_y0_keys m y0keys
+     = Some (JacFn (jacobian sdiff eqs (m_vars m)) y0keys (map fst (m_pars m)))) /\
+  Permutation [2%N; 1%N] (m_vars w5) /\
+  sym_obs_eqb (run_sym gen_sym_facts w5 [(1%N, 1); (2%N, 2); (3%N, 1)]) (ObsVals [-1; 1] [[-2; 0]; [2; 0]]) = true /\
+  clo_obs_eqb (run_closure_y0 gen_sym_facts w5 [2%N; 1%N] 0 [1; 2]) (ObsCloMat [[-2; 0]; [2; 0]]) = true /\
+  clo_obs_eqb (run_closure_y0 facts_y0_keys w5 (m_vars w5) 0 [1; 2]) (ObsCloMat [[-2; 0]; [2; 0]]) = true /\
+  clo_obs_eqb (run_closure_y0 facts_y0_keys w5 [2%N; 1%N] 0 [1; 2]) (ObsCloMat [[-4; 0]; [4; 0]]) = true.
+Proof.
+  exact (conj eq_refl (conj (fun fsym sdiff m y0keys eqs H => init_jac_y0_keys fsym sdiff facts_y0_keys m y0keys eqs eq_refl H) w5_y0_keys)).
+Qed.
+Print Assumptions C12_y0_key_order_refuted.
+
+(** (6) Rate laws that BRANCH ON THE SIGN of an argument (SignFold.v: polynomial expressions under
+    Piecewise((a, c < 0), (b, True)) / Piecewise((a, c >= 0), (b, True)), sums and products).  The symbols of the
+    model variables are plain sympy.Symbol(name) (fact VarSymPlain): no sign test on them is decided at conversion
+    time, and the translation of such a function evaluates to what CPython computes at EVERY environment --
+    states with negative entries included. *)
+Theorem C12_sign_branches_survive_translation :
+  forall (m : smodel) (args : list expr) (body p : pexpr) (env : name -> Q),
+    ptranslate gen_sym_facts m args body = Some p ->
+    peval env p == pfsem body (map (eval env) args).
+Proof. exact (fun m args body p env => ptranslate_plain_sound gen_sym_facts m args body p env eq_refl). Qed.
+Print Assumptions C12_sign_branches_survive_translation.
+
+(** ... differentiation is branch-wise and commutes with deciding relationals: the Jacobian entry of a translated
+    function is the translation (under the same assumptions) of the branch-wise derivative -- whatever is decided
+    at conversion time is decided for the Jacobian too (every value of the fact). *)
+Theorem C12_translation_commutes_with_differentiation :
+  forall (F : sym_facts) (m : smodel) (args : list expr) (body p : pexpr) (x : name),
+    ptranslate F m args body = Some p ->
+    exists nn q, assumed_nonneg F m = Some nn /\ psubst args body = Some q /\ pD x p = fold nn (pD x q).
+Proof. exact ptranslate_D. Qed.
+Print Assumptions C12_translation_commutes_with_differentiation.
+
+(** regression theorems for the seeded change C12-4 (fact VarSymNonneg: Symbol(name, nonnegative=True)).
+    FULL STATEMENT (false under that fact): as C12_sign_branches_survive_translation.  What remains true is the
+    statement restricted to environments in which every model variable is >= 0: *)
+Theorem C12_nonnegative_symbols_partial :
+  forall (F : sym_facts) (m : smodel) (args : list expr) (body p : pexpr) (env : name -> Q),
+    sf_varsym F = VarSymNonneg ->
+    (forall v, In v (m_vars m) -> 0 <= env v) ->
+    ptranslate F m args body = Some p ->
+    peval env p == pfsem body (map (eval env) args).
+Proof. exact ptranslate_nonneg_partial. Qed.
+Print Assumptions C12_nonnegative_symbols_partial.
+
+(** ... and refuted at a negative state: the rectified leak  -g*V if V < 0 else 0  (V = variable 1, g = parameter
+    3) at V = -1, g = 2 is 2 with slope -2 in V; translated with plain symbols it evaluates to 2 and its derivative
+    to -2; translated with non-negative variable symbols it IS the constant 0 (value 0, derivative 0).  Same for a
+    hand-written |V| inside a product (4 vs -4). *)
+Theorem C12_nonnegative_symbols_refuted :
+  sf_varsym facts_nonneg = VarSymNonneg /\
+  (In 1%N (m_vars w5) /\ w6_env 1%N < 0 /\
+   pfsem b_rect_neg (map (eval w6_env) w6_args) == 2 /\
+   (exists p, ptranslate gen_sym_facts w5 w6_args b_rect_neg = Some p /\
+              peval w6_env p == 2 /\ peval w6_env (pD 1%N p) == -2) /\
+   (exists p, ptranslate facts_nonneg w5 w6_args b_rect_neg = Some p /\
+              p = PPoly (EConst 0) /\ peval w6_env p == 0 /\ peval w6_env (pD 1%N p) == 0 /\
+              ~ peval w6_env p == pfsem b_rect_neg (map (eval w6_env) w6_args))) /\
+  ((exists p, ptranslate gen_sym_facts w5 [ESym 1%N; ESym 2%N; ESym 3%N] b_abs_coupling = Some p /\ peval w6_env p == 4) /\
+   (exists p, ptranslate facts_nonneg w5 [ESym 1%N; ESym 2%N; ESym 3%N] b_abs_coupling = Some p /\ peval w6_env p == -4) /\
+   pfsem b_abs_coupling (map (eval w6_env) [ESym 1%N; ESym 2%N; ESym 3%N]) == 4).
+Proof. exact (conj eq_refl (conj w6_nonneg_refuted w6_abs_coupling)). Qed.
+Print Assumptions C12_nonnegative_symbols_refuted.
 
 (** regression witness: with the pre-fix fact (ThirdParamRecords: model._parameters.values()) the
     Jacobian function of a convertible model dies with TypeError as soon as an entry mentions a
